@@ -479,6 +479,8 @@ def current_operands(ctx, rule, only=None):
 
 
 def run(ctx):
+    from .configtime import late_binding_closures as _late
+    _late(ctx, 'C08.R5', classes=('Recipe', 'RecipeStep'))
     from .iterables import single_pass_iterables as _single_pass
     _single_pass(ctx, 'C08.R3', ('Recipe.create_container', 'Recipe.uses', 'Container.__init__'))
     # contents are keyed by Substance objects: the key laws this property's bookkeeping relies on
